@@ -51,8 +51,10 @@ class HTTPProxyConnectionPool(ConnectionPool):
 
     @asyncio.coroutine
     def acquire(self, host, port, use_ssl=False, host_key=None):
-        yield from self.acquire_proxy(host, port, use_ssl=use_ssl,
-                                      host_key=host_key)
+        connection = yield from self.acquire_proxy(
+            host, port, use_ssl=use_ssl, host_key=host_key)
+
+        return connection
 
     @asyncio.coroutine
     def acquire_proxy(self, host, port, use_ssl=False, host_key=None,
@@ -76,26 +78,34 @@ class HTTPProxyConnectionPool(ConnectionPool):
         connection = yield from super().acquire(
             proxy_host, proxy_port, self._proxy_ssl, host_key=host_key
         )
-        connection.proxied = True
+        try:
+            connection.proxied = True
 
-        _logger.debug('Request for proxy connection.')
+            _logger.debug('Request for proxy connection.')
 
-        if connection.closed():
-            _logger.debug('Connecting to proxy.')
-            yield from connection.connect()
+            if connection.closed():
+                _logger.debug('Connecting to proxy.')
+                yield from connection.connect()
 
-            if tunnel:
-                yield from self._establish_tunnel(connection, (host, port))
+                if tunnel:
+                    yield from self._establish_tunnel(
+                        connection, (host, port))
 
-            if use_ssl:
-                ssl_connection = yield from connection.start_tls(self._ssl_context)
-                ssl_connection.proxied = True
-                ssl_connection.tunneled = True
+                if use_ssl:
+                    ssl_connection = yield from connection.start_tls(
+                        self._ssl_context)
+                    ssl_connection.proxied = True
+                    ssl_connection.tunneled = True
 
-                self._connection_map[ssl_connection] = connection
-                connection.wrapped_connection = ssl_connection
+                    self._connection_map[ssl_connection] = connection
+                    connection.wrapped_connection = ssl_connection
 
-                return ssl_connection
+                    return ssl_connection
+        except BaseException:
+            # Nobody else will give this connection back to the pool
+            connection.close()
+            super().no_wait_release(connection)
+            raise
 
         if connection.wrapped_connection:
             ssl_connection = connection.wrapped_connection
